@@ -641,6 +641,19 @@ func ruleFragmentClassified(c *Ctx, rule string) {
 					}
 					break
 				}
+				// a test of the length of the looked-up string says "not empty", nothing stronger: a one-letter anchor
+				// name is a name
+				if bo, ok := cond.(*ssa.BinOp); ok {
+					if lc, ok := bo.X.(*ssa.Call); ok && core.CalleeKey(&lc.Call) == "builtin.len" && sharesSource(lc.Call.Args[0], lk.Index) {
+						if k, ok := bo.Y.(*ssa.Const); ok {
+							if kv, ok := constInt(k); ok {
+								nonEmpty := g.Pol && (bo.Op == token.GTR && kv == 0 || bo.Op == token.GEQ && kv == 1 || bo.Op == token.NEQ && kv == 0) ||
+									!g.Pol && (bo.Op == token.EQL && kv == 0 || bo.Op == token.LEQ && kv == 0 || bo.Op == token.LSS && kv == 1)
+								c.R.Check(nonEmpty, rule, core.FuncName(fn)+":anchor-names-of-any-length", c.pos(bo), "the length test before the anchor lookup says no more than \"not empty\"", "the anchor lookup is made only for fragments longer than some length: a one-letter anchor name (\"$dynamicAnchor\": \"T\") is taken for a JSON Pointer, and the reference fails or misses its target")
+							}
+						}
+					}
+				}
 				call, ok := cond.(*ssa.Call)
 				if !ok {
 					continue
